@@ -456,6 +456,8 @@ class LangServer:
                             for local_name in local_names:
                                 var_list.append(tmp_obj)
                                 rename_list.append(local_name)
+                            if obj_name in use_info.hidden:
+                                continue
                             if not local_names or (
                                 use_info.rename_map.get(obj_name, obj_name) == obj_name
                                 and (
